@@ -238,6 +238,27 @@ def _mbox() -> bytes:
     return out
 
 
+def _mail_charsets(kind: str) -> bytes:
+    """messages whose text parts and headers declare the less common charsets; one body stops inside a UTF-7 / UTF-16 surrogate pair
+    (what a cut transfer leaves behind): decoding such text must still give well-formed Unicode"""
+    parts = [("utf-7", b"smile +2D3eAA- end\n", "=?utf-7?Q?caf+AOk-?="),
+             ("utf-7", b"cut +2D0- inside the pair\n", "=?utf-7?Q?half_+2D0-?="),
+             ("utf-16", "sixteen \U0001F600\n".encode("utf-16"), "=?utf-16-be?B?" + __import__("base64").b64encode("t\u00e9".encode("utf-16-be")).decode() + "?="),
+             ("unicode_escape", b"esc \\ud83d alone\n", "=?unicode_escape?Q?x=5Cud800y?="),
+             ("iso-8859-15", b"euro \xa4 sign\n", "=?iso-8859-15?Q?=A4?="),
+             ("x-unknown-charset", b"bytes \xff\xfe here\n", "=?x-unknown?Q?abc?=")]
+    out = b""
+    for i, (cs, body, subj) in enumerate(parts):
+        msg = (f"From: s{i}@example.org\nTo: r@example.org\nSubject: {subj}\nDate: Tue, 02 Jan 2024 03:04:0{i} +0000\n"
+               f"Message-ID: <c{i}@example.org>\nMIME-Version: 1.0\nContent-Type: text/plain; charset={cs}\nContent-Transfer-Encoding: 8bit\n\n").encode() + body + b"\n"
+        if kind == "eml":
+            if i == 1:
+                return msg
+            continue
+        out += f"From sender{i}@example.org Tue Jan  2 03:04:0{i} 2024\n".encode() + msg
+    return out
+
+
 RTF1 = (r"{\rtf1\ansi\deff0{\fonttbl{\f0 Times;}}{\info{\title Sim Title}{\author Sim Author}{\subject Sim Subject}{\keywords k1, k2}}"
         r"\pard Hello \b bold\b0  world\par Second \'80 euro \u-10179?\u-8704? emoji\par{\footnote This is a considerably longer footnote text {\i with a nested group that is itself fairly long and wordy enough to matter} and more plain words after it}\page Page two\par"
         r"\trowd\cellx1000\cellx2000 a\cell b\cell\row\pard end}").encode()
@@ -291,6 +312,8 @@ def generated() -> dict[str, bytes]:
     g["gen/a.eml"] = _eml()
     g["gen/att.eml"] = _eml([("note.txt", b"attached text\n"), ("doc.docx", g["gen/a.docx"]), ("blob.bin", b"\x00\x01\x02")])
     g["gen/a.mbox"] = _mbox()
+    g["gen/charsets.mbox"] = _mail_charsets("mbox")
+    g["gen/charset-utf7-cut.eml"] = _mail_charsets("eml")
     g["gen/deep.html"] = b"<html><body>" + b"<div>" * 1500 + b"deep text" + b"</div>" * 1500 + b"</body></html>"
     g["gen/deep.rtf"] = b"{\\rtf1\\ansi " + b"{\\b " * 600 + b"deep" + b"}" * 600 + b"}"
     g["gen/deep.json"] = b"[" * 3000 + b"1" + b"]" * 3000
